@@ -110,6 +110,9 @@ def merge_shards(parts):
     return base
 
 
+CURRENT_TIER = "quick"
+
+
 def run_gosym(job, harness, tier, tmp, ovdir, solver="z3-new", shard=None, nodom=False):
     out = os.path.join(tmp, f"res_{job['name']}_{harness}_{solver}_{shard[0] if shard else 0}_{int(nodom)}.json")
     moddir = job.get("moddir", REPO)
@@ -119,6 +122,8 @@ def run_gosym(job, harness, tier, tmp, ovdir, solver="z3-new", shard=None, nodom
            "-harness", "^" + harness + "$", "-solver", solver, "-out", out,
            "-max-paths", str(lim.get("max_paths", 200000)), "-timeout", str(lim.get("timeout", 900 if tier == "quick" else 3600)),
            "-query-timeout", str(60000 if tier == "quick" else 300000), "-witness", str(job.get("witness", 4))]
+    if tier == "thorough":
+        cmd += ["-deep"]
     if shard:
         cmd += ["-shard", f"{shard[0]}/{shard[1]}"]
     if nodom:
@@ -167,7 +172,7 @@ def native_replay(job, cases, tmp, tag, race=False):
     if race:
         cmd.append("-race")
     cmd.append("./" + job["pkgdir"] + "/")
-    env = dict(GOENV, VERIF_REPLAY_MODEL=model)
+    env = dict(GOENV, VERIF_REPLAY_MODEL=model, VERIF_DEEP="1" if CURRENT_TIER == "thorough" else "0")
     r = subprocess.run(cmd, cwd=moddir, env=env, capture_output=True, text=True, timeout=1200)
     outs, cur = {}, None
     for line in r.stdout.splitlines():
@@ -211,6 +216,8 @@ def main():
     ap.add_argument("--jobs", type=int, default=int(os.environ.get("VERIF_JOBS", "14")))
     args = ap.parse_args()
     prop, tier = args.prop, args.tier
+    global CURRENT_TIER
+    CURRENT_TIER = tier
     seed = int(os.environ.get("VERIF_SEED", "0"))
     import props
     if prop not in props.PROPS:
